@@ -30,7 +30,11 @@ pub fn build_world(s: &mut Src, cfg: &GenCfg, styles: &[Style]) -> World {
     let rendered = render(&prog);
     let style = *s.pick(styles);
     let l = gen_layout(&rendered.toks, s, style);
-    let laid = lay(&rendered.toks, &l);
+    let mut laid = lay(&rendered.toks, &l);
+    // classic Mac line ends: only where no comment depends on a line feed
+    if laid.n_comments == 0 && s.chance(1, 6) {
+        laid.text = laid.text.replace('\n', "\r");
+    }
     let mut decl_tok = BTreeMap::new();
     let mut occurrences: BTreeMap<Bind, Vec<usize>> = BTreeMap::new();
     for (i, t) in rendered.toks.iter().enumerate() {
